@@ -2,9 +2,9 @@ package smt
 
 import (
 	"bufio"
-	"os"
 	"fmt"
 	"io"
+	"os"
 	"os/exec"
 	"strings"
 )
